@@ -506,9 +506,12 @@ func c17GenNonZero(c *eng.Ctx) {
 
 func c17Body(c *eng.Ctx, f *ssa.Function) {
 	var put *ssa.Call
-	eng.Instrs(f, func(in ssa.Instruction) {
+	// (the upload itself may live in a helper doBackup calls from one place)
+	eng.InstrsDeep(f, func(_ *ssa.Function, in ssa.Instruction) {
 		if call, ok := in.(*ssa.Call); ok {
 			if cal := call.Call.StaticCallee(); cal != nil && cal.Name() == "PutObject" {
+				put = call
+			} else if call.Call.IsInvoke() && call.Call.Method.Name() == "PutObject" {
 				put = call
 			}
 		}
@@ -516,6 +519,15 @@ func c17Body(c *eng.Ctx, f *ssa.Function) {
 	if put == nil {
 		c.Undecided("R-C17-5", f, f.Pos(), "PutObject call", "not found")
 		return
+	}
+	putFn := put.Parent()
+	var putSite *ssa.Call
+	if putFn != f {
+		putSite, _ = eng.UniqueCallSite(putFn).(*ssa.Call)
+		if putSite == nil || putSite.Parent() != f {
+			c.Undecided("R-C17-5", putFn, put.Pos(), eng.CallStr(&put.Call), "the upload is neither in doBackup nor in a helper it calls from one place")
+			return
+		}
 	}
 	// input literal
 	var input ssa.Value
@@ -533,11 +545,16 @@ func c17Body(c *eng.Ctx, f *ssa.Function) {
 	okBody := false
 	detail := "Body = " + eng.ValStr(body)
 	if nr, _ := eng.TupleCall(body); nr != nil && eng.CalleeIs(&nr.Call, "bytes", "NewReader") {
-		if rf, idx := eng.TupleCall(nr.Call.Args[0]); rf != nil && idx == 0 && eng.CalleeIs(&rf.Call, "os", "ReadFile") {
+		if rf, idx := eng.TupleCall(eng.OriginX(nr.Call.Args[0])); rf != nil && idx == 0 && eng.CalleeIs(&rf.Call, "os", "ReadFile") && rf.Parent() == f {
 			if pc, _ := eng.TupleCall(rf.Call.Args[0]); pc != nil && eng.CalleeIs(&pc.Call, "db", "*DB.Path") {
 				okBody = true
 				// error discipline
-				for _, call := range []*ssa.Call{rf, put} {
+				chk := []*ssa.Call{rf, put}
+				if putSite != nil {
+					chk = append(chk, putSite)
+				}
+				for _, call := range chk {
+					f := call.Parent()
 					ev := saveErr(call)
 					hit, path := eng.Search(f, call, eng.AssumeErr(ev, false), nil, func(x ssa.Instruction) bool {
 						r, ok := x.(*ssa.Return)
@@ -555,6 +572,11 @@ func c17Body(c *eng.Ctx, f *ssa.Function) {
 							}
 						}
 					})
+					for _, r := range eng.Returns(f) {
+						if rv := eng.RetVals(r); len(rv) > 0 && eng.Same(rv[len(rv)-1], ev) {
+							tested = true // handed straight to the caller
+						}
+					}
 					c.Check(hit == nil && tested, "R-C17-5", f, call.Pos(), "error of "+eng.CallStr(&call.Call), "a failed read or upload is returned (so the generation is not marked as backed up)", func() string {
 						if !tested {
 							return "error is never tested"
